@@ -654,7 +654,11 @@ func ruleACC(c *Ctx) []Obligation {
 				continue
 			}
 			key := k.Obj().Name() + "." + m.Name()
-			o := Obligation{Key: "ast." + key, Pos: c.pos(m.Pos()), Tags: asmTags("", "ast."+k.Obj().Name())}
+			tags := asmTags("", "ast."+k.Obj().Name())
+			if c.mdASTNodes()[k] && len(tags) == 0 {
+				tags = append(tags, "md")
+			}
+			o := Obligation{Key: "ast." + key, Pos: c.pos(m.Pos()), Tags: tags}
 			ci := called[key]
 			switch {
 			case ci != nil && ci.used:
@@ -672,4 +676,24 @@ func ruleACC(c *Ctx) []Obligation {
 		}
 	}
 	return obs
+}
+
+// mdASTNodes: AST node types that belong to the metadata part of the grammar:
+// members of a sum type whose name marks it as metadata (DI*Field, MDField,
+// Metadata, MetadataNode, SpecializedMDNode, ...).
+func (c *Ctx) mdASTNodes() map[*types.Named]bool {
+	if v, ok := c.memo["mdASTNodes"]; ok {
+		return v.(map[*types.Named]bool)
+	}
+	out := map[*types.Named]bool{}
+	for in, members := range c.sealed().ifaces {
+		name := in.Obj().Name()
+		if strings.HasPrefix(name, "DI") || strings.HasPrefix(name, "MD") || strings.HasPrefix(name, "Metadata") || name == "SpecializedMDNode" || name == "GenericDINodeField" {
+			for _, m := range members {
+				out[m] = true
+			}
+		}
+	}
+	c.memo["mdASTNodes"] = out
+	return out
 }
